@@ -153,6 +153,30 @@ func init() {
 		if c3, ok := parseViaAsm(a[0], s); !ok || c3.NaN != c.NaN || (!c.NaN && c3.X.Cmp(c.X) != 0) || c3.X.Signbit() != c.X.Signbit() {
 			return "FAIL asm " + s
 		}
+		if a[0] == "ppc_fp128" && len(a[1]) == 32 && !c.NaN {
+			// what is printed is at least the CANONICAL pair of the exact sum of the two doubles (high = the double nearest to the sum, with the sign of the
+			// sum also when it is zero; low = the rest), computed here by an independent route
+			hb, _ := strconv.ParseUint(a[1][:16], 16, 64)
+			lb, _ := strconv.ParseUint(a[1][16:], 16, 64)
+			hi, lo := math.Float64frombits(hb), math.Float64frombits(lb)
+			if !math.IsInf(hi, 0) && !math.IsInf(lo, 0) {
+				sum := new(big.Float).SetPrec(2400).SetFloat64(hi)
+				sum.Add(sum, new(big.Float).SetPrec(2400).SetFloat64(lo))
+				ch, _ := sum.Float64()
+				if math.IsInf(ch, 0) {
+					ch = math.Copysign(math.MaxFloat64, ch)
+				}
+				rest := new(big.Float).SetPrec(2400).Sub(sum, new(big.Float).SetPrec(2400).SetFloat64(ch))
+				cl, _ := rest.Float64()
+				if sum.Sign() == 0 {
+					ch, cl = math.Copysign(0, hi), 0 // (a zero sum has the sign of the high double)
+				}
+				canon := fmt.Sprintf("0xM%016X%016X", math.Float64bits(ch), math.Float64bits(cl))
+				if s != canon {
+					return "FAIL canon " + s + " (the canonical pair of the sum is " + canon + ")"
+				}
+			}
+		}
 		if strings.HasPrefix(s, "0x") {
 			// hexadecimal output must be the input's bit pattern (canonical spelling: same digits, upper case, no leading zeros for the 0x form)
 			got := strings.TrimLeft(strings.TrimPrefix(s, hexPrefix(a[0])), "0")
